@@ -26,6 +26,18 @@ type finfo struct {
 	offset uintptr
 }
 
+// skipNilEmbedded wraps the value function of a field that is reached through
+// an embedded pointer. When a pointer on the way is nil the field is omitted,
+// as encoding/json does, instead of panicking in FieldByIndex.
+func skipNilEmbedded(vf valFunc) valFunc {
+	return func(fi *finfo, rv reflect.Value, addr uintptr) (any, reflect.Value, bool) {
+		if _, err := rv.FieldByIndexErr(fi.index); err != nil {
+			return nil, nilValue, true
+		}
+		return vf(fi, rv, addr)
+	}
+}
+
 func valString(fi *finfo, rv reflect.Value, addr uintptr) (any, reflect.Value, bool) {
 	return rv.FieldByIndex(fi.index).String(), nilValue, false
 }
